@@ -7,11 +7,13 @@ open Panic
 
 /-- (tie) the guards read off `lib_priv.rs`, `binreflect.rs` and both `receiver.rs` on this run, and
 the static scan: no `world.entity(..)` / `entity_mut(..)` in the message handlers that is not
-dominated by a `get_entity` of the same entity, no `unwrap`/`expect` on wire data in `bin_to_reflect` -/
+dominated by a `get_entity` of the same entity, no `unwrap`/`expect` on wire data in `bin_to_reflect`, and entity references
+inside a payload (the joints of a `SkinnedMesh`) are looked up and skipped when unknown -/
 theorem C08_guards_tie :
     (⟨Generated.guardApplyLooksUp, Generated.guardClientParentLooksUp, Generated.guardServerParentLooksUp,
       Generated.guardDecodeTotal⟩ : Guards) = Guards.all ∧
-    Generated.unguardedEntityAccesses = 0 ∧ Generated.binToReflectUnwraps = 0 := by decide
+    Generated.unguardedEntityAccesses = 0 ∧ Generated.binToReflectUnwraps = 0 ∧
+    Generated.guardSkinnedJointsLookUp = true := by decide
 
 /-- every closure is total on every world -/
 theorem C08_step_total (w : World) (s : Step) : ∃ w', step Guards.all w s = .ok w' := by
